@@ -108,7 +108,7 @@ def install(prog):
         if e.exists_handler is None: raise Unsupported('fs stub not installed: ' + c)
         return e.exists_handler(I, tuple(I.deref(a[0]).data), c.split('::')[-1])
     @M('errno::errno', 'errno')
-    def _(I, a, c): return Opaque('Errno', 0)
+    def _(I, a, c): return Agg('Errno', [0])
     @M('set_errno', 'errno::set_errno')
     def _(I, a, c): return UNIT
     @M('std::io::Error::last_os_error', 'io::Error::last_os_error')
